@@ -688,6 +688,7 @@ fn srv_payloads(full_len: usize) -> Vec<i32> {
 fn main() {
     // a stack overflow / abort in the code under test must become a verdict, not a dead check
     vcore::supervise("C03");
+    vcore::install_log_evaluation(); // logging is part of the environment: log arguments are evaluated as under a real subscriber
     let ctx = Ctx::from_args("C03", "exploration");
     let thorough = !ctx.quick();
     if let Some((_key, case)) = ctx.replay_case() {
